@@ -265,7 +265,8 @@ class Axioms:
         for w in apps.get('atan2', []):
             if s.once(('atan2', w)):
                 y, x = node(w)[2], node(w)[3]
-                r = app('atan2_r', 'Real', y, x)
+                # the radius is the sqrt application a harness can also name: sqrt(x*x + y*y)
+                r = app('sqrt', 'Real', arith('+', arith('*', x, x), arith('*', y, y)))
                 nz = bor(cmp('!=', x, 0), cmp('!=', y, 0))
                 s.add('atan2', implies(nz, conj([
                     cmp('>', r, 0), cmp('=', arith('*', r, r), arith('+', arith('*', x, x), arith('*', y, y))),
